@@ -24,6 +24,7 @@ type c06Case struct {
 	crashAt    int64
 	flavor     string
 	crashOp    string
+	downBlocks int // blocks that arrive while the crashed taker is down (past the payment window)
 }
 
 func (c c06Case) victim() string {
@@ -80,6 +81,9 @@ func runC06(r *Run, seed int64, c c06Case, record bool) *lcHist {
 		}
 		if record {
 			h.victim.RecordCrossings = true
+		}
+		if c.downBlocks > 0 {
+			h.whileDown = func(h *lcHist) { h.p.chainObj().Mine(c.downBlocks) }
 		}
 		// online oracle
 		w.Subscribe(func(e *sim.Event) {
@@ -298,11 +302,29 @@ func TestC06(t *testing.T) {
 		if !r.Thorough() {
 			step = 2
 		}
-		for k := first; k < len(h.ops); k += step {
+		payCalls := 0
+		for k := first; k < len(h.ops); k++ {
+			if strings.Contains(h.ops[k], "ln.rebalance") {
+				payCalls++
+			}
+			// the first two payment calls and the crossing right after each are always crash points
+			aroundPay := payCalls <= 2 && (strings.Contains(h.ops[k], "ln.rebalance") || (k > 0 && strings.Contains(h.ops[k-1], "ln.rebalance")))
+			if (k-first)%step != 0 && !aroundPay {
+				continue
+			}
 			for _, fl := range []string{"before", "after"} {
 				c := b
 				c.crashAt, c.flavor, c.crashOp = int64(k+1), fl, h.ops[k]
 				crashCases = append(crashCases, c)
+				// the same crash around the claim payment with the payment window over by the time the taker is
+				// back: recovery then reaches the key-revealing state without a new payment attempt
+				if aroundPay {
+					c.downBlocks = 70
+					if b.chain == "btc" {
+						c.downBlocks = 510
+					}
+					crashCases = append(crashCases, c)
+				}
 			}
 		}
 		mu.Unlock()
